@@ -613,13 +613,16 @@ func (o *vtC29Oracle) command(cmd int) {
 			vAssert(w.sessionFile.paused, "pausing returned and the persisted session is not marked paused")
 		}
 	case vtC29CmdResume:
+		// everything up to the moment the resume is requested must have been
+		// quiet; what begins once the command is under way is the resume's doing
+		o.quiet("before resume")
 		err := o.m.Resume(ctx, vtC29Selection(), "")
 		if err != nil {
+			// refused (the manager no longer knows the session): nothing may have been started
 			break
 		}
 		vAssert(o.status != vtC29Terminated, "a terminated session is no longer known to the manager")
 		vCover("resume returned")
-		o.quiet("before resume")
 		o.status = vtC29Running
 	case vtC29CmdFlushWait:
 		o.openGate()
